@@ -13,6 +13,9 @@ import (
 	"github.com/tsawler/tabula/text"
 )
 
+// vHeaderText is the running header as drawn; some generators pad it with a blank.
+var vHeaderText = "Running Header"
+
 // a 5-page stub document: page 0 is a title page without the running header; pages 1..4 carry it
 func vStubGetPageIdx(r *reader.Reader, index int) (*pages.Page, error) {
 	if index < 0 || index >= vPageCount {
@@ -32,7 +35,7 @@ func vStubFragmentsIdx(r *reader.Reader, p *pages.Page) ([]text.TextFragment, er
 	if idx == 0 {
 		return []text.TextFragment{{Text: "The Title", X: 200, Y: 500, Width: 150, Height: 24, FontSize: 24}, body}, nil
 	}
-	return []text.TextFragment{{Text: "Running Header", X: 72, Y: 760, Width: 120, Height: 10, FontSize: 10}, body,
+	return []text.TextFragment{{Text: vHeaderText, X: 72, Y: 760, Width: 120, Height: 10, FontSize: 10}, body,
 		{Text: "Confidential Footer", X: 72, Y: 30, Width: 120, Height: 10, FontSize: 10}}, nil
 }
 
@@ -45,10 +48,11 @@ func vStubFragmentsIdx(r *reader.Reader, p *pages.Page) ([]text.TextFragment, er
 //symgo:redirect (*github.com/tsawler/tabula/reader.Reader).GetPage vStubGetPageIdx
 //symgo:redirect (*github.com/tsawler/tabula/reader.Reader).ExtractTextFragments vStubFragmentsIdx
 //symgo:redirect (*github.com/tsawler/tabula/reader.Reader).Close vStubClose
-//symgo:desc 5-page stub document (reader cut at PageCount/GetPage/ExtractTextFragments/Close): title page without marginal text, pages 2..5 with the same header and footer; selection = one or two pages out of 2..5 (enumerated), exclusion = headers, footers or both (enumerated), API = Text, Lines or Paragraphs (enumerated): the excluded marginal text does not appear in the output and the body text of every selected page does. (Enumerated structure; concrete fragments)
+//symgo:desc 5-page stub document (reader cut at PageCount/GetPage/ExtractTextFragments/Close): title page without marginal text, pages 2..5 with the same header (drawn bare, or padded with a trailing or leading blank - enumerated) and footer; selection = one or two pages out of 2..5 (enumerated), exclusion = headers, footers or both (enumerated), API = Text, Lines or Paragraphs (enumerated): the excluded marginal text does not appear in the output and the body text of every selected page does. (Enumerated structure; concrete fragments)
 func H_C11_filter_uses_document_page_index() {
 	vPageCount = 5
 	vCloseCalls, vCloseErr = 0, false
+	vHeaderText = []string{"Running Header", "Running Header ", " Running Header"}[vAnyIntIn(0, 2)]
 	a := vAnyIntIn(2, 5)
 	b := vAnyIntIn(a, 5) // b == a: single page
 	mode := vAnyIntIn(0, 2)
@@ -95,5 +99,75 @@ func H_C11_filter_uses_document_page_index() {
 	}
 	vAssert("body-kept-first", strings.Contains(out, "Body text of page "+string(rune('A'+a-1))))
 	vAssert("body-kept-second", strings.Contains(out, "Body text of page "+string(rune('A'+b-1))))
+	vReach("end")
+}
+
+// H_C10_selection_spelling_is_irrelevant: the result for a set of pages does not depend on how the set is spelled -
+// order, duplicates, ranges, repeated chained calls - for any terminal operation and option, header/footer exclusion
+// included (detection always sees the whole document).
+//
+//symgo:harness prop=C10 kernel=K6-spelling-independence noreplay=1
+//symgo:redirect (*github.com/tsawler/tabula/reader.Reader).PageCount vStubPageCount
+//symgo:redirect (*github.com/tsawler/tabula/reader.Reader).GetPage vStubGetPageIdx
+//symgo:redirect (*github.com/tsawler/tabula/reader.Reader).ExtractTextFragments vStubFragmentsIdx
+//symgo:redirect (*github.com/tsawler/tabula/reader.Reader).Close vStubClose
+//symgo:desc 5-page stub document (reader cut at PageCount/GetPage/ExtractTextFragments/Close) with a running header and footer on pages 2..5; the page set {p} or {p,q} (p, q enumerated in 2..5) spelled as: Pages in ascending order, Pages in descending order, Pages with every number five times, chained single-page Pages calls with a repetition, or PageRange(p,p) plus Pages(q,p) (enumerated); option none, ExcludeHeaders or ExcludeHeadersAndFooters (enumerated); terminal Text, Lines or Paragraphs (enumerated): every spelling gives exactly the output of the canonical ascending spelling
+func H_C10_selection_spelling_is_irrelevant() {
+	vPageCount = 5
+	vCloseCalls, vCloseErr = 0, false
+	vHeaderText = "Running Header"
+	p := vAnyIntIn(2, 5)
+	q := vAnyIntIn(p, 5)
+	opt := vAnyIntIn(0, 2)
+	term := vAnyIntIn(0, 2)
+	mk := func(spelling int) *Extractor {
+		e := &Extractor{filename: "x.pdf", format: format.PDF, reader: &reader.Reader{}, readerOpened: true, ownsReader: true, options: defaultOptions()}
+		switch spelling {
+		case 0:
+			e = e.Pages(p, q)
+		case 1:
+			e = e.Pages(q, p)
+		case 2:
+			e = e.Pages(p, q, p, q, p, q, p, q, p, q)
+		case 3:
+			e = e.Pages(q).Pages(p).Pages(q)
+		default:
+			e = e.PageRange(p, p).Pages(q, p)
+		}
+		switch opt {
+		case 1:
+			e = e.ExcludeHeaders()
+		case 2:
+			e = e.ExcludeHeadersAndFooters()
+		}
+		return e
+	}
+	run := func(e *Extractor) string {
+		switch term {
+		case 0:
+			s, _, err := e.Text()
+			vAssert("no-error", err == nil)
+			return s
+		case 1:
+			ls, err := e.Lines()
+			vAssert("no-error", err == nil)
+			out := ""
+			for _, l := range ls {
+				out += l.Text + "\n"
+			}
+			return out
+		default:
+			ps, err := e.Paragraphs()
+			vAssert("no-error", err == nil)
+			out := ""
+			for _, pp := range ps {
+				out += pp.Text + "\n"
+			}
+			return out
+		}
+	}
+	want := run(mk(0))
+	got := run(mk(vAnyIntIn(1, 4)))
+	vAssert("same-result-however-the-set-is-spelled", got == want)
 	vReach("end")
 }
